@@ -13,3 +13,4 @@ CONSTANTS
   BC <- SBC
   BBit <- SBBit
   BBase <- SBBase
+  BHas <- SBHas
